@@ -101,7 +101,7 @@ def search_and_replay(prop, g, o, cex, inputs):
     open(wrap, 'w').write('#define VERIF_NATIVE 1\n#include "%s"\nint main(int argc, char **argv) { if (argc > 1) verif_load(argv[1]); %s(); printf("NATIVE-OK\\n"); return 0; }\n' % (tu, spec['entry']))
     exe = os.path.join(wd, 'native_replay')
     ndefs = [d for d in defs if d != '-DOPUS_VERIF']
-    gcc = ['gcc', '-O1', '-g', '-w', '-fsanitize=address,undefined', '-fno-sanitize-recover=all', '-std=gnu99'] + ndefs + \
+    gcc = ['gcc', '-O1', '-g', '-w', '-fsanitize=address,undefined', '-fno-sanitize-recover=all', '-std=gnu99', '-ffunction-sections', '-fdata-sections', '-Wl,--gc-sections'] + ndefs + \
           pipeline.incs(gen) + [wrap, '-o', exe, '-lm']
     rc, txt, _ = pipeline.run(gcc, 300, 16)
     if rc != 0:
